@@ -251,6 +251,25 @@ def edits1(t, alphabet):
     return sorted(out)
 
 
+def check_rfc2822(acc, pendulum, off_min):
+    """strict=False hands RFC 2822 dates to the fallback parser: the value must carry the offset as written (no number
+    wrapped modulo a day)."""
+    sg = "-" if off_min < 0 else "+"
+    text = "Tue, 04 Aug 2015 23:20:07 %s%02d%02d" % (sg, abs(off_min) // 60, abs(off_min) % 60)
+    want = ["DateTime", [2015, 8, 4, 23, 20, 7, 0], off_min * 60]
+    for opts in ({"strict": False}, {"strict": False, "tz": "Europe/Paris"}):
+        acc.c["evaluations"] += 1
+        try:
+            r = pendulum.parse(text, **opts)
+            got = [type(r).__name__, list(obs.fields(r)), obs.offset_s(r)]
+        except ValueError:
+            got = ["ValueError"]
+        except Exception as e:  # noqa: BLE001
+            got = ["EXC", type(e).__name__]
+        if got != want and got != ["ValueError"]:
+            acc.mismatch("non-strict", "rfc2822-offset-value", {"kind": "rfc", "off": off_min, "s": text, "opts": opts}, got, want)
+
+
 def check_tz_gap(acc, pendulum, z, f):
     from ..ref import tzref
     kind, inst = tzref.normalize(tzref.zone(z), tuple(f), 1)
@@ -354,6 +373,8 @@ def run_shard(shard):
             # strings without an offset read in a zone (tz option) where that wall time was skipped - including the
             # zones that skipped a whole calendar day: the value is the documented normalisation (moved forward by the
             # length of the gap), not one computed from a truncated or wrapped gap length
+            for off in range(-1439, 1440):
+                check_rfc2822(acc, pendulum, off)
             for z in ("Pacific/Apia", "Pacific/Kiritimati", "Pacific/Kwajalein", "Europe/Paris", "Australia/Lord_Howe", "America/Sao_Paulo"):
                 gaps = [tr for tr in seeds.zone_transitions(z) if tr[2] > tr[1] and -2000000000 < tr[0] < 2000000000]
                 big = [tr for tr in gaps if tr[2] - tr[1] >= 86400]
@@ -376,6 +397,9 @@ def replay_case(case, acc):
     import warnings
     warnings.simplefilter("ignore")
     pendulum, swap = _setup()
+    if case.get("kind") == "rfc":
+        check_rfc2822(acc, pendulum, case["off"])
+        return
     if case.get("kind") == "tzgap":
         check_tz_gap(acc, pendulum, case["z"], tuple(case["f"]))
         return
